@@ -907,6 +907,11 @@ message Other { string name = 1; }
 		"enum-alias":          "enum E { option allow_alias = true; E_UNSPECIFIED = 0; E_A = 1; E_B = 1; }\nmessage A { E e = 1; repeated E es = 2; }",
 		"enum-negative":       "enum E { E_UNSPECIFIED = 0; E_NEG = -1; }\nmessage A { E e = 1; }",
 		"empty-message":       "message A { }",
+		"map-of-wrapper":      "message W { oneof type { A a = 1; B b = 2; } }\nmessage A { string s = 1; }\nmessage B { int64 n = 1; }\nmessage H { map<string, W> ws = 1; repeated W list = 2; W one = 3; }",
+		"map-of-typed-wrapper": "message W { option (j5.ext.v1.message).oneof = {}; oneof type { string s = 1; A a = 2; } }\nmessage A { string s = 1; }\nmessage H { map<string, W> ws = 1; repeated W list = 2; optional string x = 3; }",
+		"exposed-oneof-name-clash": "message A { oneof contact_info { option (j5.ext.v1.oneof).expose = true; string email = 1; string phone = 2; } string contactInfo = 3; }",
+		"exposed-oneof-name-clash-snake": "message A { oneof pick { option (j5.ext.v1.oneof).expose = true; string email = 1; string phone = 2; } string pick = 3; }",
+		"json-name-clash":     "message A { string foo_bar = 1; string fooBar = 2; }",
 		"flatten-chain":       "message A { B b = 1 [(j5.ext.v1.field).object.flatten = true]; string own = 2; }\nmessage B { C c = 1 [(j5.ext.v1.field).object.flatten = true]; int64 count = 2; }\nmessage C { string name = 1; Leaf leaf = 2; repeated string tags = 3; }\nmessage Leaf { string text = 1; }",
 		"flatten-chain-3":     "message A { B b = 1 [(j5.ext.v1.field).message.flatten = true]; }\nmessage B { C c = 1 [(j5.ext.v1.field).message.flatten = true]; }\nmessage C { D d = 1 [(j5.ext.v1.field).message.flatten = true]; string c_name = 2; }\nmessage D { string d_name = 1; optional int32 d_count = 2; }",
 		"flatten-chain-oneof": "message A { B b = 1 [(j5.ext.v1.field).object.flatten = true]; }\nmessage B { C c = 1 [(j5.ext.v1.field).object.flatten = true]; }\nmessage C { oneof pick { option (j5.ext.v1.oneof).expose = true; string s = 1; int64 i = 2; } string name = 3; }",
